@@ -9,7 +9,10 @@ oracle   : exact identities: triu(W')=0, W'W^T + W W'^T = FP + PF^T + Q; K = P H
 """
 from __future__ import annotations
 
+import contextlib
+import io
 import itertools
+import math
 from fractions import Fraction
 
 import casadi as ca
@@ -528,6 +531,67 @@ def explore_rk4(case):
             got_ = np.array(ca.evalf(ca.densify(u_.rk4(fld, 0.3, sparse_of(y0v, shp), ca.SX(hh)))), dtype=float)
             if got_.shape != want_.shape or not np.all(np.isfinite(got_)) or np.max(np.abs(got_ - want_)) > 1e-13 * (1 + np.max(np.abs(want_))):
                 res.fail(site="util.rk4", clause="result_independent_of_storage_form_of_state", cls=nm, detail=dict(field=nm, h=hh, y0=y0v, sparse=got_, dense=want_), sub="rk4", case=case)
+    # (5) the right-hand side is an arbitrary Python callable: it may refer to the very symbols the step is taken from (coefficients frozen
+    # at the start of the step: zero-order-hold input u(t0), linearisation A(y0)), it may itself take an rk4 step of a faster sub-model
+    # (multi-rate), it may return plain numbers.  k_i = h f(t_i, y_i) with THE GIVEN f, called at the stage points.
+    ts_, ys_, hs_ = ca.SX.sym("t"), ca.SX.sym("y", 2), ca.SX.sym("h")
+
+    def frozen_sym(tt, yy):
+        A_ = ca.vertcat(ca.horzcat(0, 1 + ys_[0]), ca.horzcat(-2 - ys_[1] ** 2, -0.3))
+        return ca.mtimes(A_, yy) + ca.vertcat(ca.sin(ts_), 0) + ca.vertcat(0, tt ** 3)
+
+    def frozen_np(t0, y0):
+        A_ = np.array([[0, 1 + y0[0]], [-2 - y0[1] ** 2, -0.3]])
+        return lambda tt, yy: A_ @ yy + np.array([math.sin(t0), 0]) + np.array([0, tt ** 3])
+
+    def nested_sym(tt, yy):
+        # slow state yy[0] driven by a fast lag yy[1] that is advanced by its own rk4 sub-step inside the derivative
+        fast = u_.rk4(lambda t2, z: -8.0 * (z - ca.sin(t2)), tt, yy[1], hs_ / 4)
+        return ca.vertcat(fast - 0.5 * yy[0], -8.0 * (yy[1] - ca.sin(tt)))
+
+    def nested_np(h_):
+        def fn(tt, yy):
+            fast = rk4_np(lambda t2, z: -8.0 * (z - math.sin(t2)), tt, yy[1], h_ / 4)
+            return np.array([fast - 0.5 * yy[0], -8.0 * (yy[1] - math.sin(tt))])
+        return fn
+
+    def const_sym(tt, yy):
+        return ca.DM([1.0, -2.0])
+
+    callables = [("closure_over_step_symbols", frozen_sym, lambda t0, y0, h_: frozen_np(t0, y0)), ("nested_rk4_in_callback", nested_sym, lambda t0, y0, h_: nested_np(h_)),
+                 ("returns_numeric_constant", const_sym, lambda t0, y0, h_: (lambda tt, yy: np.array([1.0, -2.0])))]
+    for nm, fsym, mk_np in callables:
+        try:
+            with contextlib.redirect_stdout(io.StringIO()):
+                fC = ca.Function("rk4_" + nm, [ts_, ys_, hs_], [ca.densify(u_.rk4(fsym, ts_, ys_, hs_))])
+        except Exception as ex:
+            res.count("evaluations")
+            res.fail(site="util.rk4", clause="operation_raises", cls=nm, detail=dict(callable=nm, msg="%s: %s" % (type(ex).__name__, str(ex)[:200])), sub="rk4", case=case)
+            continue
+        for t0 in (0.0, 0.3):
+            for y0 in (np.array([1.0, 0.0]), np.array([-0.5, 2.0])):
+                for hh in (0.1, 0.5, -0.25):
+                    res.count("evaluations")
+                    res.nontrivial.add(hash(("callable", nm, t0, y0.tobytes(), hh)))
+                    got_ = np.array(fC(t0, y0, hh), dtype=float).reshape(-1)
+                    want_ = rk4_np(mk_np(t0, y0, hh), t0, y0, hh)
+                    if not np.all(np.isfinite(got_)) or np.max(np.abs(got_ - want_)) > 1e-12 * (1 + np.max(np.abs(want_))):
+                        res.fail(site="util.rk4", clause="stages_evaluate_the_given_callable", cls=nm, detail=dict(callable=nm, t0=t0, y0=y0, h=hh, got=got_, want=want_), sub="rk4", case=case)
+        # a completed step after a nested one is still exact (the nested call leaves nothing behind)
+    # symbols named like anything the routine may use inside: the result does not depend on what the caller's symbols are called
+    for names in (("t", "y", "h"), ("h", "t", "y"), ("k1", "k2", "k3"), ("y", "y", "y"), ("X", "X", "X")):
+        tn, yn, hn = ca.SX.sym(names[0]), ca.SX.sym(names[1], 2), ca.SX.sym(names[2])
+        res.count("evaluations")
+        res.nontrivial.add(hash(("names",) + names))
+        try:
+            fN = ca.Function("rk4_named", [tn, yn, hn], [ca.densify(u_.rk4(lambda tt, yy: ca.vertcat(yy[1] + tt ** 2, -4.0 * yy[0] * yy[1]), tn, yn, hn))])
+            got_ = np.array(fN(0.3, [1.0, -0.5], 0.25), dtype=float).reshape(-1)
+        except Exception as ex:
+            res.fail(site="util.rk4", clause="operation_raises", cls="names", detail=dict(names=names, msg="%s: %s" % (type(ex).__name__, str(ex)[:200])), sub="rk4", case=case)
+            continue
+        want_ = rk4_np(lambda tt, yy: np.array([yy[1] + tt ** 2, -4.0 * yy[0] * yy[1]]), 0.3, np.array([1.0, -0.5]), 0.25)
+        if not np.all(np.isfinite(got_)) or np.max(np.abs(got_ - want_)) > 1e-12:
+            res.fail(site="util.rk4", clause="result_independent_of_symbol_names", cls="-".join(names), detail=dict(names=names, got=got_, want=want_), sub="rk4", case=case)
     # conformance in double on one representative of each program
     for f, prog, flat in ((f_cubic, pc, [[0.4], [2.0], [0.1], [1.0, -2.0, 0.0, 1.0]]), (f_lin, pl, [[0.0], [2.0], [0.1], [-3.0]])):
         conform_or_die(f, prog, flat, f.name())
@@ -728,7 +792,78 @@ def explore_predict_variants(case):
                             bad.append("Wplus_lower_triangular")
                     for b in bad:
                         res.fail(site="util.sqrt_correct", clause=b, cls="W_pattern=%s;%s" % (pname, form), detail=dict(n=n, m=m_, W=Wd, H=Hv, Rs=Rv), sub="variants", case=case)
-    res.samples.append(dict(variants="scale, history, sparse patterns, sparse W in sqrt_correct"))
+    # (6) what the caller's symbols are CALLED: a state vector is very often ca.SX.sym("X", n) or "x", a factor "W" or "L"; the routines
+    # create symbols of their own inside.  The function built from renamed arguments must be the function built from the plain names,
+    # also when the arguments are expressions of such symbols (F = jacobian(f(X), X)).
+    NAMES = ("X", "x", "W", "L", "P", "D", "K", "a")
+    n = 3
+    Wn_ = np.array([[1.5, 0, 0], [0.25, 2.0, 0], [-0.5, 0.75, 0.5]])
+    Fn_ = np.array([[0.0, 1.0, -0.5], [-2.0, -0.3, 0.25], [0.5, 0.0, 1.0]])
+    Qn_ = np.array([[0.4, 0.1, 0.0], [0.1, 0.3, -0.05], [0.0, -0.05, 0.2]])
+    Hn_ = np.array([[1.0, 0.0, -0.5], [0.25, 2.0, 0.0]])
+    Rn_ = np.array([[0.3, 0.0], [0.1, 0.2]])
+    Pn_ = Wn_ @ Wn_.T + np.array([[0.0, 0.2, 0], [0.2, 0, 0], [0, 0, 0.0]])
+    lowvals = lambda M: [M[r, c] for c in range(M.shape[1]) for r in range(c, M.shape[0])]
+    plain = dict(predict=np.array(fn_predict(n)(ca.DM(ca.Sparsity.lower(n), lowvals(Wn_)), Fn_, Qn_), dtype=float),
+                 correct=[np.array(x, dtype=float) for x in fn_correct(n, 2)(ca.DM(ca.Sparsity.lower(2), lowvals(Rn_)), Hn_, ca.DM(ca.Sparsity.lower(n), lowvals(Wn_)))],
+                 ldl=[np.array(x, dtype=float) for x in fn_fact("ldl", n)(Pn_)], udu=[np.array(x, dtype=float) for x in fn_fact("udu", n)(Pn_)])
+
+    def near(a_, b_):
+        return all(np.all(np.isfinite(x)) and np.max(np.abs(np.asarray(x) - np.asarray(y))) <= 1e-12 * (1 + np.max(np.abs(y))) for x, y in zip(a_, b_))
+    for nm in NAMES:
+        for slot in (0, 1, 2, "all", "jacobian"):
+            res.count("evaluations")
+            res.nontrivial.add(hash(("names", nm, slot)))
+            nmW, nmF, nmQ = [(nm if slot in (k_, "all") else base) for k_, base in enumerate(("W", "F", "Q"))]
+            try:
+                with contextlib.redirect_stdout(io.StringIO()):
+                    Ws = ca.SX.sym(nmW, ca.Sparsity.lower(n))
+                    Qs = ca.SX.sym(nmQ, n, n)
+                    if slot == "jacobian":
+                        # F is the Jacobian of a model in a state called <nm>; it is evaluated at a state value afterwards
+                        xs_ = ca.SX.sym(nm, n)
+                        fx = ca.mtimes(ca.DM(Fn_), xs_) + ca.vertcat(0.5 * xs_[0] * xs_[1], 0, -0.25 * xs_[2] ** 2)
+                        Fs = ca.jacobian(fx, xs_)
+                        xv = np.array([0.4, -1.2, 0.7])
+                        Fv_ = Fn_ + np.array([[0.5 * xv[1], 0.5 * xv[0], 0], [0, 0, 0], [0, 0, -0.5 * xv[2]]])
+                        fP = ca.Function("p", [Ws, xs_, Qs], [ca.densify(u.sqrt_covariance_predict(Ws, Fs, Qs))])
+                        got = [np.array(fP(ca.DM(ca.Sparsity.lower(n), lowvals(Wn_)), xv, Qn_), dtype=float)]
+                        want = [np.array(fn_predict(n)(ca.DM(ca.Sparsity.lower(n), lowvals(Wn_)), Fv_, Qn_), dtype=float)]
+                    else:
+                        Fs = ca.SX.sym(nmF, n, n)
+                        fP = ca.Function("p", [Ws, Fs, Qs], [ca.densify(u.sqrt_covariance_predict(Ws, Fs, Qs))])
+                        got = [np.array(fP(ca.DM(ca.Sparsity.lower(n), lowvals(Wn_)), Fn_, Qn_), dtype=float)]
+                        want = [plain["predict"]]
+                if not near(got, want):
+                    res.fail(site="util.sqrt_covariance_predict", clause="result_independent_of_symbol_names", cls="%s;%s" % (nm, slot), detail=dict(name=nm, slot=slot, got=got[0], want=want[0]), sub="variants", case=case)
+            except Exception as ex:
+                res.fail(site="util.sqrt_covariance_predict", clause="operation_raises", cls="names:%s;%s" % (nm, slot), detail=dict(name=nm, slot=slot, msg="%s: %s" % (type(ex).__name__, str(ex)[:200])), sub="variants", case=case)
+            if slot == "jacobian":
+                continue
+            nmR, nmH, nmW2 = [(nm if slot in (k_, "all") else base) for k_, base in enumerate(("Rs", "H", "W"))]
+            try:
+                with contextlib.redirect_stdout(io.StringIO()):
+                    Rs_ = ca.SX.sym(nmR, ca.Sparsity.lower(2))
+                    Hs_ = ca.SX.sym(nmH, 2, n)
+                    Ws2 = ca.SX.sym(nmW2, ca.Sparsity.lower(n))
+                    fC_ = ca.Function("c", [Rs_, Hs_, Ws2], [ca.densify(x) for x in u.sqrt_correct(Rs_, Hs_, Ws2)])
+                    got = [np.array(x, dtype=float) for x in fC_(ca.DM(ca.Sparsity.lower(2), lowvals(Rn_)), Hn_, ca.DM(ca.Sparsity.lower(n), lowvals(Wn_)))]
+                if not near(got, plain["correct"]):
+                    res.fail(site="util.sqrt_correct", clause="result_independent_of_symbol_names", cls="%s;%s" % (nm, slot), detail=dict(name=nm, slot=slot, got=got, want=plain["correct"]), sub="variants", case=case)
+            except Exception as ex:
+                res.fail(site="util.sqrt_correct", clause="operation_raises", cls="names:%s;%s" % (nm, slot), detail=dict(name=nm, slot=slot, msg="%s: %s" % (type(ex).__name__, str(ex)[:200])), sub="variants", case=case)
+            if slot == 0:
+                for kind in ("ldl", "udu"):
+                    try:
+                        with contextlib.redirect_stdout(io.StringIO()):
+                            Ps_ = ca.SX.sym(nm, n, n)
+                            A_, D_ = (u.ldl_symmetric_decomposition(Ps_) if kind == "ldl" else u.udu_symmetric_decomposition(Ps_))
+                            got = [np.array(x, dtype=float) for x in ca.Function("f", [Ps_], [ca.densify(A_), ca.densify(D_)])(Pn_)]
+                        if not near(got, plain[kind]):
+                            res.fail(site="util.%s" % kind, clause="result_independent_of_symbol_names", cls=nm, detail=dict(name=nm, got=got, want=plain[kind]), sub="variants", case=case)
+                    except Exception as ex:
+                        res.fail(site="util.%s" % kind, clause="operation_raises", cls="names:%s" % nm, detail=dict(name=nm, msg="%s: %s" % (type(ex).__name__, str(ex)[:200])), sub="variants", case=case)
+    res.samples.append(dict(variants="scale, history, sparse patterns, sparse W in sqrt_correct, symbol names"))
     return res
 
 
